@@ -157,8 +157,17 @@ Theorem C13_source_level_sample : forall (ans : nat -> GoExt.oval) now t d i w e
       SrcSamplerP.level_rec (SrcSamplerP.is_some t) (SrcSamplerP.is_some d) (SrcSamplerP.is_some i) (SrcSamplerP.is_some w) (SrcSamplerP.is_some e) calls').
 Proof. exact SrcSamplerP.LevelSampler_Sample_src. Qed.
 
+(* RandomSampler.Sample: rand.Intn is the environment (rnd n = its answer for this call) *)
+Theorem C13_source_random_sample : forall (rnd : Z -> Z) (s : N) lvl,
+  SamplerSrc.RandomSampler_Sample rnd s lvl = GoSem.Ok ((0 <? s)%N && (rnd (Z.of_N s) =? 0)%Z).
+Proof. exact SrcSamplerP.RandomSampler_Sample_src. Qed.
+
+Theorem C13_source_random_one_admits_all : forall (rnd : Z -> Z) lvl, (forall n, (0 <= rnd n < Z.max n 1)%Z) ->
+  SamplerSrc.RandomSampler_Sample rnd 1%N lvl = GoSem.Ok true.
+Proof. exact SrcSamplerP.RandomSampler_one_admits_all. Qed.
+
 Theorem C13_source_translated_set :
-  length SamplerSrc.translated_functions = 4%nat /\ length SamplerSrc.skipped_functions = 1%nat.
+  length SamplerSrc.translated_functions = 5%nat /\ length SamplerSrc.skipped_functions = 0%nat.
 Proof. exact SrcSamplerP.sampler_counts. Qed.
 
 Print Assumptions C13_basic_exact.
@@ -177,4 +186,6 @@ Print Assumptions C13_source_basic_sample.
 Print Assumptions C13_source_burst_inc.
 Print Assumptions C13_source_burst_sample.
 Print Assumptions C13_source_level_sample.
+Print Assumptions C13_source_random_sample.
+Print Assumptions C13_source_random_one_admits_all.
 Print Assumptions C13_source_translated_set.
